@@ -214,7 +214,7 @@ PROPS = {
                 'cases with a non-planar transform or within 0.02 rad of gimbal lock; ellipses that are rank-deficient or '
                 'not axis-aligned.',
         'assumptions': ['cases within 1e-3 rad of gimbal lock before or after the transform are outside the quantifier and skipped'],
-        'tiers': {'quick': {'deadline': 300}, 'thorough': {'deadline': 3000}},
+        'tiers': {'quick': {'deadline': 300}, 'thorough': {'deadline': 3300, 'case_timeout': 1500}},
         'technique': 'bounded-exhaustive lattice enumeration on the real code with long-double reference rotations and exact component-selection oracle',
         'level_text': 'complete enumeration of the stated catalogues (PSD covariances incl. rank-deficient, attitudes up to '
                       '1.5e-3 rad from gimbal lock, 27 rigid transforms and their compositions, rotated and singular 2x2 '
